@@ -79,6 +79,12 @@ def live_names(fn):
         if isinstance(node, ast.AugAssign):
             visit(node.value)       # `n += 1` alone does not make n live
             return
+        if isinstance(node, ast.Assign) and len(node.targets) == 1 and isinstance(node.targets[0], ast.Name):
+            me = node.targets[0].id         # `n = n + 1` alone does not make n live either
+            for sub in ast.walk(node.value):
+                if isinstance(sub, ast.Name) and isinstance(sub.ctx, ast.Load) and sub.id != me:
+                    live.add(sub.id)
+            return
         if isinstance(node, ast.Name) and isinstance(node.ctx, ast.Load):
             live.add(node.id)
         for ch in ast.iter_child_nodes(node):
@@ -419,6 +425,14 @@ class Unit:
             return f'({m_andthen(mode)} {call} (fun {s2} => {cont(s2, {**env, "__eff__": ("", "flag")})}))'
         if isinstance(st, ast.For) and isinstance(st.target, ast.Name) and not st.orelse:
             xs, ty = self.expr(st.iter, env)
+            if ty == 'val':
+                items = self.new('items')
+                x = self.new(st.target.id + '_')
+                s1, s2 = self.new('s'), self.new('s')
+                body = self.protected(st.body, s1, {**env, st.target.id: (x, 'val')}, cur)
+                return (f'({m_lift(mode)} (iter_items {xs}) {s} (fun {items} => '
+                        f'({m_andthen(mode)} (for_each {items} (fun {x} {s1} => {body}) {s}) '
+                        f'(fun {s2} => {cont(s2, env)}))))')
             if not ty.startswith('list '):
                 raise Untranslatable(f'for over {ty}')
             x = self.new(st.target.id + '_')
@@ -547,6 +561,10 @@ class Unit:
                     raise Untranslatable(f'forward call to {name} without a rec variable')
                 target, params = sig['rec'][0], sig['rec'][1]
             args = self.bind_args(c, params, sig.get('defaults', {}), env)
+            for r in sig.get('reads', ()):
+                if r not in env:
+                    raise Untranslatable(f'{r} not set before calling {name}')
+                args = [env[r][0]] + args
             return f'({target} {" ".join(args)} {s})' if args else f'({target} {s})'
         # method on a local object
         obj, oty = self.expr(f.value, env)
@@ -725,7 +743,7 @@ STEP = {
     ],
     'attrs': {'run_me': ('(s_run sp)', 'val'), 'skip_me': ('(s_skip sp)', 'val'),
               'swallow_me': ('(s_swallow sp)', 'val'), 'retry_decorator': ('(s_retry sp)', 'option rcfg'),
-              'foreach_items': ('(has_foreach sp)', 'bool')},
+              'foreach_items': ('(s_foreach sp)', 'option val')},
     'always_truthy': ('rcfg',),
     'ctx_exprs': {'context.current_pipeline.steps_runner': ('tt', 'steps_runner')},
     'unit_objects': ('steps_runner',),
@@ -824,7 +842,49 @@ PYPE = {
     'methods': {'run_step': {'kind': 'eff', 'coq': 'gen_pype_run_step', 'params': []}},
     'order': ['run_step'],
 }
-UNITS = [STEPSRUNNER, STEP, RETRY, WHILE, PIPELINE, PYPE]
+STEP_FOREACH = {
+    'file': 'pypyr/dsl.py', 'cls': 'Step', 'section': 'GenStepForeach',
+    'variables': [
+        ('sp', 'step', 'self'),
+        ('prim_run_conditional_decorators', 'val -> st -> R',
+         'self.run_conditional_decorators(context), run while self.for_counter holds the given item'),
+    ],
+    'attrs': {'foreach_items': ('(s_foreach sp)', 'option val')},
+    'fields_rw': ('for_counter',),
+    'fields': {}, 'ctors': {}, 'obj_methods': {},
+    'methods': {
+        'run_conditional_decorators': {'kind': 'prim', 'coq': 'prim_run_conditional_decorators', 'params': [],
+                                       'reads': ['self.for_counter']},
+        'foreach_loop': {'kind': 'eff', 'coq': 'gen_foreach_loop', 'params': []},
+    },
+    'order': ['foreach_loop'],
+}
+STEP_RUN = {
+    'file': 'pypyr/dsl.py', 'cls': 'Step', 'section': 'GenStepRun',
+    'variables': [
+        ('sp', 'step', 'self'),
+        ('prim_set_step_input_context', 'st -> R', 'self.set_step_input_context(context)'),
+        ('prim_unset_step_input_context', 'st -> R', 'self.unset_step_input_context(context)'),
+        ('prim_while_loop', 'wcfg -> st -> R',
+         'self.while_decorator.while_loop(context, self.run_foreach_or_conditional)'),
+        ('prim_run_foreach_or_conditional', 'st -> R', 'self.run_foreach_or_conditional(context)'),
+    ],
+    'attrs': {'run_me': ('(s_run sp)', 'val'), 'skip_me': ('(s_skip sp)', 'val'),
+              'while_decorator': ('(s_while sp)', 'option wcfg'),
+              'description': ('(@None val)', 'option val')},     # descriptions are not modelled
+    'always_truthy': ('wcfg',),
+    'fields': {}, 'ctors': {},
+    'obj_methods': {('wcfg', 'while_loop'): ('prim_while_loop',
+                                             [('step_method', '@callback:run_foreach_or_conditional')])},
+    'methods': {
+        'set_step_input_context': {'kind': 'prim', 'coq': 'prim_set_step_input_context', 'params': []},
+        'unset_step_input_context': {'kind': 'prim', 'coq': 'prim_unset_step_input_context', 'params': []},
+        'run_foreach_or_conditional': {'kind': 'prim', 'coq': 'prim_run_foreach_or_conditional', 'params': []},
+        'run_step': {'kind': 'eff', 'coq': 'gen_step_run_step', 'params': []},
+    },
+    'order': ['run_step'],
+}
+UNITS = [STEPSRUNNER, STEP, RETRY, WHILE, PIPELINE, PYPE, STEP_FOREACH, STEP_RUN]
 
 
 def pure_call_hook(unit):
